@@ -129,21 +129,49 @@ func (g *gen) content(n int, safe bool, depth int, linky bool) {
 func (g *gen) list(safe bool, depth, lvl int, linky bool) {
 	tag := sim.Pick(g.r, []string{"ul", "ol"})
 	g.b.WriteString("<" + tag + ">")
+	listSafe := safe
 	for k, m := 0, 1+g.r.Intn(4); k < m; k++ {
-		g.b.WriteString("<li>" + g.text(safe, linky))
-		if g.r.Pct(12) {
+		// an item may itself be an exclusion candidate (a class or id from the vocabulary on
+		// the <li>), or hold one (a <nav> / <aside> inside the item): what is excluded then
+		// lies inside a list, and the number of top-level elements does not change
+		safe := listSafe
+		navItem := false
+		switch {
+		case g.r.Pct(8):
+			g.b.WriteString("<li " + sim.Pick(g.r, []string{"class", "id"}) + "=\"" + sim.Pick(g.r, exclVocab) + "\">")
+			safe = false
+		case g.r.Pct(4):
+			g.b.WriteString("<li role=\"" + sim.Pick(g.r, []string{"navigation", "complementary"}) + "\">")
+			safe, navItem = false, true
+			g.navDepth++
+		default:
+			g.b.WriteString("<li>")
+		}
+		g.b.WriteString(g.text(safe, linky))
+		if g.r.Pct(14) {
 			// a block element directly inside the item
-			switch g.r.Intn(3) {
+			switch g.r.Intn(4) {
 			case 0:
 				g.b.WriteString("<pre>" + g.text(safe, false) + "</pre>")
 			case 1:
 				g.b.WriteString("<h4>" + g.text(safe, false) + "</h4>")
+			case 2:
+				// (an item's text is taken as a whole, so a <nav> inside it is not judged
+				// by the explicit-exclusion oracle: the text is flagged neither way)
+				tag := sim.Pick(g.r, []string{"nav", "aside"})
+				save := g.navDepth
+				g.navDepth = 0
+				g.b.WriteString("<" + tag + "><p>" + g.text(false, g.r.Bool()) + "</p></" + tag + ">")
+				g.navDepth = save
 			default:
 				g.b.WriteString("<section><p>" + g.text(safe, false) + "</p></section>")
 			}
 		}
 		if lvl < 3 && g.r.Pct(25) {
 			g.list(safe, depth, lvl+1, linky)
+		}
+		if navItem {
+			g.navDepth--
 		}
 		g.b.WriteString("</li>")
 		if lvl < 3 && g.r.Pct(12) {
@@ -602,7 +630,20 @@ func (p *Prop) Execute(c *sim.Case, env *sim.Env) *sim.Result {
 			case k > 0 && br.Pct(10):
 				chapters = append(chapters, []byte("<html><head><title>e</title></head><body></body></html>"))
 			default:
-				chapters = append(chapters, []byte(makePageFrom(sp.Seed+uint64(k)*7919, 3+br.Intn(sim.MaxInt(2, sp.Nodes/4)), (k+1)*1000).html))
+				h := makePageFrom(sp.Seed+uint64(k)*7919, 3+br.Intn(sim.MaxInt(2, sp.Nodes/4)), (k+1)*1000).html
+				if br.Pct(12) {
+					// a chapter of 40-100 KB (a long comment in front of the content): more than one
+					// read of the archive member, more than one window of the decompressor
+					var fb strings.Builder
+					fb.WriteString("<!-- ")
+					for n := 40000 + br.Intn(60000); fb.Len() < n; {
+						fb.WriteString(strconv.FormatUint(br.Uint64(), 36))
+						fb.WriteByte(' ')
+					}
+					fb.WriteString("-->")
+					h = strings.Replace(h, "<body>", "<body>"+fb.String(), 1)
+				}
+				chapters = append(chapters, []byte(h))
 			}
 		}
 		data := officew.EPUBFromChapters(chapters, br).Bytes()
